@@ -155,7 +155,14 @@ def analyse_program_goals(text, goals, N, seed=0, settings=None, force_cyclic=Fa
 
         rb = RecBuilder(program)
         sample_vals = None
+        from .pool import tainted
+
         for goal in goals:
+            if tainted():
+                # a CPU-limit exception was injected into Polar/sympy: process-global caches may be
+                # half-updated, nothing computed afterwards in this process is trusted
+                stats["refusals"]["skipped_after_timeout"] = stats["refusals"].get("skipped_after_timeout", 0) + 1
+                continue
             left = CASE_CPU - (_time.process_time() - _t0)
             if left < 1:
                 stats["refusals"]["timeout@case"] = stats["refusals"].get("timeout@case", 0) + 1
